@@ -950,3 +950,99 @@ Proof.
   intros Hc Hr. rewrite run_outs in Hr. inversion Hr; subst. apply J_Jg.
   apply (J_end_of ops (init fx c a) []); [apply J_init|apply inv_init; exact Hc].
 Qed.
+
+(* ------------------------------------------------------------------ corollaries in terms of the model's
+   own poll: a future that is still asleep would get Pending again *)
+Theorem spmc_recv_future_asleep_means_pending fx c a ops s outs f x w r y w2 :
+  0 < c -> run fx c a ops = (s, outs) ->
+  get (futs s) f = Some x -> f_live x = true -> f_wait x = Some w -> f_woken x = false ->
+  f_kind x = FRecv r -> get (rxs s) r = Some y -> r_closed y = false -> r_taint y = false ->
+  snd (poll_fut s f x w2) = OPending /\ has_reg (r_cur y mod cap s) w (regs s) = true.
+Proof.
+  intros Hc Hr Hg Hl Hw Hk Hkind Hgy Hcl Ht.
+  pose proof (spmc_wake_invariant _ _ _ _ _ _ Hc Hr) as Hj.
+  destruct (Hj f x Hg Hl) as [_ Hp]. specialize (Hp w Hw Hk). unfold Pw in Hp. rewrite Hkind in Hp. cbn [fut_rx] in Hp.
+  destruct Hp as (y0 & Hg0 & Hp). rewrite Hgy in Hg0. inversion Hg0; subst y0.
+  destruct Hp as [Hp|[Hp|(H1 & H2 & H3)]]; [congruence|congruence|]. split; [|exact H1].
+  unfold poll_fut. rewrite Hkind, Hgy, Hcl. unfold try_recv_core.
+  assert (Hwin : in_window s (r_cur y) = false).
+  { unfold in_window. destruct (N.ltb_spec (r_cur y) (head s)); [lia|reflexivity]. }
+  rewrite Hwin, H3. reflexivity.
+Qed.
+
+Theorem spmc_send_future_asleep_means_pending fx c a ops s outs f x w v w2 :
+  0 < c -> run fx c a ops = (s, outs) ->
+  get (futs s) f = Some x -> f_live x = true -> f_wait x = Some w -> f_woken x = false ->
+  f_kind x = FSend v -> f_disp x = false -> s_alive s = true ->
+  snd (poll_fut s f x w2) = OPending /\ pw s = Some w.
+Proof.
+  intros Hc Hr Hg Hl Hw Hk Hkind Hd Ha.
+  pose proof (spmc_wake_invariant _ _ _ _ _ _ Hc Hr) as Hj.
+  destruct (Hj f x Hg Hl) as [_ Hp]. specialize (Hp w Hw Hk). unfold Pw in Hp. rewrite Hkind in Hp. cbn [fut_rx] in Hp.
+  destruct Hp as [Hp|(H1 & H2 & H3)]; [congruence|]. split; [|exact H1].
+  unfold poll_fut. rewrite Hkind, Ha, H2. cbn [negb]. unfold try_send_core. unfold space in H3.
+  destruct (minl (cursors s)) as [m|]; [|discriminate]. inversion H3 as [H4].
+  pose proof (inv_run _ _ _ _ _ _ Hc Hr) as I. pose proof (i_cap _ _ I) as Hcap. cbn [proj c_cap] in Hcap.
+  destruct (N.leb_spec (cap s) (head s - m)); [reflexivity|lia].
+Qed.
+
+(* ------------------------------------------------------------------ the full statement and the two
+   recorded defects *)
+Definition spmc_wake_full (fx : bool) : Prop :=
+  forall c a ops s outs f x w,
+    0 < c -> run fx c a ops = (s, outs) ->
+    get (futs s) f = Some x -> f_live x = true -> f_wait x = Some w -> f_woken x = false ->
+    snd (poll_fut s f x w) = OPending.
+
+(* a receive future is pending on r; r.close() (through &r from another task) makes it Ready(Disconnected)
+   but invokes no waker *)
+Definition witness_rx_close_no_wake : list op := [MkRecv 0 0; Poll 0 1; RClose 0].
+
+Lemma spmc_wake_refuted_rx_close fx : ~ spmc_wake_full fx.
+Proof.
+  intros H.
+  specialize (H 2 true witness_rx_close_no_wake
+                (fst (run fx 2 true witness_rx_close_no_wake)) (snd (run fx 2 true witness_rx_close_no_wake))
+                0 (mkFut (FRecv 0) true (Some 1) false false) 1 ltac:(lia)).
+  assert (He : run fx 2 true witness_rx_close_no_wake =
+               (fst (run fx 2 true witness_rx_close_no_wake), snd (run fx 2 true witness_rx_close_no_wake)))
+    by (destruct (run fx 2 true witness_rx_close_no_wake); reflexivity).
+  specialize (H He). clear He.
+  destruct fx; vm_compute in H; specialize (H eq_refl eq_refl eq_refl eq_refl); discriminate H.
+Qed.
+
+(* two send futures with different wakers are pending on one sender: the second registration replaces
+   the first in the single AtomicWaker; the receive that frees the slot wakes only the second *)
+Definition witness_send_waker_displaced : list op :=
+  [TrySend 1; MkSend 0 2; Poll 0 0; MkSend 1 3; Poll 1 1; TryRecv 0].
+
+Lemma spmc_wake_refuted_displaced fx : ~ spmc_wake_full fx.
+Proof.
+  intros H.
+  specialize (H 1 true witness_send_waker_displaced
+                (fst (run fx 1 true witness_send_waker_displaced)) (snd (run fx 1 true witness_send_waker_displaced))
+                0 (mkFut (FSend 2) true (Some 0) false true) 0 ltac:(lia)).
+  assert (He : run fx 1 true witness_send_waker_displaced =
+               (fst (run fx 1 true witness_send_waker_displaced), snd (run fx 1 true witness_send_waker_displaced)))
+    by (destruct (run fx 1 true witness_send_waker_displaced); reflexivity).
+  specialize (H He). clear He.
+  destruct fx; vm_compute in H; specialize (H eq_refl eq_refl eq_refl eq_refl); discriminate H.
+Qed.
+
+(* ------------------------------------------------------------------ cancellation: dropping a future
+   changes nothing in the channel, removes no registration and touches no other future *)
+Theorem spmc_drop_future_harmless s f :
+  let s' := fst (step s (DropF f)) in
+  proj s' = proj s /\ regs s' = regs s /\ pw s' = pw s /\ wlog s' = wlog s /\
+  (forall g, g <> f -> get (futs s') g = get (futs s) g) /\
+  (Jg true s -> Jg true s').
+Proof.
+  assert (Hid : proj s = proj s /\ regs s = regs s /\ pw s = pw s /\ wlog s = wlog s /\
+                (forall g, g <> f -> get (futs s) g = get (futs s) g) /\ (Jg true s -> Jg true s))
+    by (split; [reflexivity|]; split; [reflexivity|]; split; [reflexivity|]; split; [reflexivity|]; split; auto).
+  cbn [step]. destruct (get (futs s) f) as [x|] eqn:Eg; [|cbn [fst]; exact Hid].
+  destruct (f_live x); cbn [fst]; [|exact Hid].
+  split; [reflexivity|]. split; [reflexivity|]. split; [reflexivity|]. split; [reflexivity|]. split.
+  - intros g Hne. cbn [add_drops kill set_fut set_futs futs]. apply get_set_neq. exact Hne.
+  - intros Hj. apply Jg_add_drops, Jg_kill. exact Hj.
+Qed.
